@@ -330,12 +330,8 @@ func (p *renderState) renderExpression(expr ast.Expression, wrap bool, dot bool)
 			// the template parser rejects a field access directly on a literal term
 			left = `(` + left + `)`
 		}
-		result = left + "."
-		identifier := p.renderExpression(expr.Identifier, false, true)
-		if identifier[0] == '.' || identifier[0] == '$' {
-			identifier = identifier[1:]
-		}
-		result += identifier
+		// the member name is a name, not an expression: it is neither a variable ($) nor the range() function
+		result = left + "." + expr.Identifier.Name
 		if wrap {
 			if !p.rawmode {
 				result += ` | __pug__html`
